@@ -42,8 +42,9 @@ class FrameItem(EFLRItem):
         self.index_min = NumericAttribute('index_min')
         self.index_max = NumericAttribute('index_max')
 
-        # (attribute, 'value'/'units') pairs which were not given by the user, but derived from the data at the last write
-        self._derived_from_data: list[tuple[Attribute, str]] = []
+        # (attribute, 'value'/'units', assignment number) of the parts which were not given by the user, but derived
+        # from the data at the last write
+        self._derived_from_data: list[tuple[Attribute, str, int]] = []
 
         super().__init__(name, parent=parent, **kwargs)
 
@@ -99,11 +100,13 @@ class FrameItem(EFLRItem):
             if getattr(attr, key) is None and value is not None:
                 logger.debug(f"Setting {attr.label}.{key} of {self} to {value}")
                 setattr(attr, key, value)
-                self._derived_from_data.append((attr, key))
+                self._derived_from_data.append((attr, key, getattr(attr, f'n_{key}_assignments')))
 
         # index characteristics derived at a previous write describe other rows (other data or row range) - drop them
-        for derived_attr, derived_key in self._derived_from_data:
-            setattr(derived_attr, f'_{derived_key}', None)
+        # (unless the user has assigned another value in the meantime)
+        for derived_attr, derived_key, n_assignments in self._derived_from_data:
+            if getattr(derived_attr, f'n_{derived_key}_assignments') == n_assignments:
+                setattr(derived_attr, f'_{derived_key}', None)
         self._derived_from_data.clear()
 
         index_channel: ChannelItem = self.channels.value[0]
